@@ -110,7 +110,9 @@ LookupVal(a, what, key) ==
   LET n == Len(a.items) IN
   CASE what = "len"  -> OkRes(<<n>>)
     [] what = "iter" -> OkRes([k \in 1..n |-> a.items[k].id])
-    [] what = "index" -> IF key >= 0 /\ key < n THEN OkRes(<<a.items[key + 1].id>>) ELSE ErrRes("IndexError")
+    [] what = "index" -> IF key >= 0 /\ key < n THEN OkRes(<<a.items[key + 1].id>>)
+                         ELSE IF key < 0 /\ key >= 0 - n THEN OkRes(<<a.items[n + key + 1].id>>)
+                         ELSE ErrRes("IndexError")
     [] what = "label" -> IF \E k \in 1..n : a.items[k].label = key
                          THEN OkRes(<<a.items[CHOOSE k \in 1..n : a.items[k].label = key /\ \A j \in 1..(k - 1) : a.items[j].label # key].id>>)
                          ELSE ErrRes("KeyError")
@@ -173,7 +175,7 @@ Calls ==
                                                   cs \in {<<>>, <<0, 2>>, <<5, 5>>}} ELSE {})
   \cup (IF HasBulk THEN {CallBulkRemove(i, ks) : i \in {k \in 1..NI : w[k].ex}, ks \in RemKs} ELSE {})
   \cup (IF HasLookup THEN {CallLookup(i, wh, 0) : i \in {k \in 1..NI : w[k].ex}, wh \in {"len", "iter", "badkey"}}
-                          \cup {CallLookup(i, "index", k) : i \in {k \in 1..NI : w[k].ex}, k \in 0..(MaxItems + 1)}
+                          \cup {CallLookup(i, "index", k) : i \in {k \in 1..NI : w[k].ex}, k \in (0 - MaxItems - 1)..(MaxItems + 1)}
                           \cup {CallLookup(i, wh, l) : i \in {k \in 1..NI : w[k].ex}, wh \in {"label", "contains"}, l \in Labels \cup {9}} ELSE {})
   \cup {CallEncode(i) : i \in {k \in 1..NI : w[k].ex}}
   \cup (IF HasAux THEN {CallAux(i) : i \in {k \in 1..NI : w[k].ex}} ELSE {})
@@ -227,7 +229,7 @@ Next ==
         \/ \E ls \in LabelSeqs(2) \ {<<>>}, cs \in BulkCs : BulkAdd(i, ls, cs)
         \/ \E ks \in RemKs : BulkRemove(i, ks)
         \/ \E wh \in {"len", "iter", "badkey"} : Lookup(i, wh, 0)
-        \/ \E k \in 0..(MaxItems + 1) : Lookup(i, "index", k)
+        \/ \E k \in (0 - MaxItems - 1)..(MaxItems + 1) : Lookup(i, "index", k)
         \/ \E wh \in {"label", "contains"}, l \in Labels \cup {9} : Lookup(i, wh, l)
         \/ Encode(i) \/ AuxEdit(i) \/ Poke(i)
         \/ \E pos \in 1..MaxItems : EditItem(i, pos)
